@@ -201,6 +201,14 @@ func runC16Faults(c *sim.Ctx, t *testing.T) {
 		}
 		before := cwCanon(cwMemory(svc))
 		var oerr error
+		// the request's step limit: none, or one that ends a recorder's walk exactly at (2) or
+		// just past (3) its action - a walk that stops at its limit is stored like any other
+		var ctl *core.Control
+		if op.kind == "process" {
+			if l := []int{0, 0, 2, 3, 1}[c.Intn(5, "limit")]; l > 0 {
+				ctl = &core.Control{Limit: l}
+			}
+		}
 		if c.Guard(cwOpString(op), func() {
 			switch op.kind {
 			case "add":
@@ -208,7 +216,7 @@ func runC16Faults(c *sim.Ctx, t *testing.T) {
 			case "rem":
 				oerr = svc.RemMachine(ctx, op.id)
 			case "process":
-				_, oerr = svc.Process(ctx, svJSONCopy(op.msg), nil)
+				_, oerr = svc.Process(ctx, svJSONCopy(op.msg), ctl)
 			case "getcrew":
 				svc.crew.Copy()
 			}
